@@ -455,7 +455,16 @@ def extra_legs(tier, seed):
             W = G.World(d)
             async with trio.open_nursery() as sup:
                 sup.start_soon(ns["t0_f0"], W)
-                await trio.testing.wait_all_tasks_blocked()
+                total, polls = G.count_tasks(d["root"])
+                if polls:       # pollers never block
+                    for _ in range(100000):
+                        if len(W.tasks) >= total:
+                            break
+                        await trio.sleep(0)
+                    for _ in range(60):
+                        await trio.sleep(0)
+                else:
+                    await trio.testing.wait_all_tasks_blocked()
                 root = trio.lowlevel.current_root_task()
                 with warnings.catch_warnings():
                     warnings.simplefilter("error", stackscope.InspectionWarning)
